@@ -219,6 +219,7 @@ C14_TREES = {
     'yaml-looking-scalars': [b'n=~', b't=true', b'f=no', b'num=1e3', b'neg=-1', b'colon=a: b', b'hash=a #b', b'dash=- x', b'q="quoted"', b'empty=', b'brace={x}', b'star=*a', b'amp=&a', b'bang=!t', b'pct=%d', b'at=@x'],
     'keys-needing-quotes': [b'\\2port=x', b'\\-20dB=y', b'\\ lead=z', b'a\\.b=dot', b'a\\[0\\]=brk', b'k\\=v=eq', b'sp\\ ace=s', b'null=~', b'true=t'],
     'trailing-nulls': [b'l[0]=a', b'l[1]#', b'l[2]#', b'only[0]#', b'only[1]#', b'rows[0][0]=x', b'rows[0][1]#', b'rows[1][0]#', b'rows[1][1]#'],
+    'type-changes': [b'ports=2', b'ports[0]=in', b'ports[1]=out', b'm=1', b'm.k=v', b'l[0]=a', b'l[1].x=y', b'l=scalar again', b'mm.k=v', b'mm[0]=list now', b'mm[0][0]=deeper', b'n#', b'n.sub=1'],
     'root-scalar': [b'.=just a scalar'],
     'root-list': [b'[0]=a', b'[1].k=v', b'[2]#'],
     'utf8': ['grüß=äöü Ω'.encode('utf-8'), 'µ=μ'.encode('utf-8')],
